@@ -13,7 +13,7 @@ def specs_all(tier):
     k = 0
     shapes = ["plain", "generic", "generic_self_where", "generic_self_hrtb", "generic_self_hrtb_inline", "generic_self_nested", "output_self", "rhs_self",
               # operand types written `(&A)`, and handed in through `$t:ty` fragments of a macro_rules! macro
-              "paren", "frag",
+              "paren", "paren2", "frag",
               # a path through `Self` (an associated constant) in the where-clause
               "self_const"]
     for op in C.BINOPS:
@@ -38,7 +38,7 @@ def render(s):
     op = s["op"]
     fn = C.OPFN[op]
     sym = C.OPSYM[op]
-    generic = s["shape"] not in ("plain", "rhs_self", "paren", "frag", "self_const")
+    generic = s["shape"] not in ("plain", "rhs_self", "paren", "paren2", "frag", "self_const")
     g = "<T>" if generic else ""
     if s["shape"] == "generic_self_hrtb_inline":
         # an inline bound that is already higher-ranked and mentions `Self`
@@ -61,9 +61,10 @@ def render(s):
             wh += ", for<'b> Self: ::dxrt::TagL<'b>"
     gdef = "<T>" if generic else ""
     defs = [f"#[derive(Clone)] pub struct A{gdef}(pub {fty});"]
-    if s["shape"] in ("paren", "frag") and (s["op"] in C.BINOPS[::2]):
-        # `Self` in the where-clause (also inside a bound that has a binder of its own) of these spellings
-        wh = "where Self: ::core::marker::Sized, u8: for<'x> ::dxrt::TagP<'x, Self>"
+    if s["shape"] in ("paren", "paren2", "frag") and (s["op"] in C.BINOPS[::2]):
+        # `Self` in the where-clause of these spellings: as the bounded type, inside a bound that has a binder of its own,
+        # and inside the bound of a predicate that has a binder of its own
+        wh = "where Self: ::core::marker::Sized, u8: for<'x> ::dxrt::TagP<'x, Self>, for<'y> &'y u8: ::dxrt::TagP<'y, Self>, for<'z> Self: ::dxrt::TagL<'z>"
     if s["shape"] == "self_const":
         defs.append("impl A { pub const N: usize = 2; }")
         if not s["lref"]:
@@ -77,6 +78,8 @@ def render(s):
     rhs_ty = f"&{B}" if s["rref"] else B
     if s["shape"] == "paren":
         lhs_ty, rhs_ty = f"({lhs_ty})", f"({rhs_ty})"
+    if s["shape"] == "paren2":
+        lhs_ty, rhs_ty = f"(({lhs_ty}))", f"(({rhs_ty}))"
     frag_call = None
     if s["shape"] == "frag":
         frag_call = f"mk!({lhs_ty}, {rhs_ty});"
